@@ -86,10 +86,35 @@ class Batch1:
         raise ev.err("index other than [0] into a one-row v2p result", n, mod)
 
 
+def unrow_rev(x):
+    """x = rest * indexed(base, '::-1') -> (rest * base, 'idx[::-1]')"""
+    x = sp.sympify(x)
+    idx = [t for t in sp.Mul.make_args(x) if is_indexed(t)]
+    rest = sp.Mul(*[t for t in sp.Mul.make_args(x) if not is_indexed(t)])
+    if len(idx) != 1:
+        return None, None
+    return rest * idx[0].args[0], str(idx[0].args[1])
+
+
 def v2p_intr(ev, a, k):
     names, _ = positional_params(lib_func("qha/v2p.py", "v2p"))
     b = dict(zip(names, a))
     b.update(k)
+    from ..sym import ArrV
+    fa, pa = b["func_of_t_v"], b["p_of_t_v"]
+    if isinstance(fa, ArrV) and isinstance(pa, ArrV):
+        # several functions interpolated in one call: row r of the result is v2p1d(row r of the functions, row r of the pressures)
+        if not (fa.batch == pa.batch == 1 and fa.batch_last and pa.batch_last and len(fa.shape) == 1 and fa.shape == pa.shape):
+            raise AnalysisError("v2p: function and pressure rows of different shapes")
+        pn_ = as_sym(b["desired_pressures"])
+        out = ArrV(1, fa.shape, batch_last=True)
+        for r in range(fa.shape[0]):
+            fb, fi = unrow_rev(as_sym(fa.get((r,))))
+            pb, pi = unrow_rev(as_sym(pa.get((r,))))
+            if fb is None or pb is None or fi != pi or fi != "idx[::-1]":
+                raise AnalysisError(f"v2p: row {r} of the functions and of the pressures are not reversed alike ({fi} vs {pi})")
+            out.cells[(r,)] = linear("V2P1D", [fb, pb, pn_], 0, same_scale_groups=((1, 2),))
+        return out
     f, p, pn = (as_sym(b[x]) for x in ("func_of_t_v", "p_of_t_v", "desired_pressures"))
 
     def unrow(x):
